@@ -260,6 +260,9 @@ impl Sut for PStrSut {
     fn panic_property(&self) -> &'static str {
         "C13"
     }
+    fn alt_skew(&self) -> usize {
+        1
+    }
     fn apply(&self, buf: &mut ABuf, op: &Op) -> OpOut {
         let w = self.w;
         let r = guarded(|| {
@@ -509,6 +512,9 @@ impl Sut for PodStrSut {
     fn panic_property(&self) -> &'static str {
         "C14"
     }
+    fn alt_skew(&self) -> usize {
+        3
+    }
     fn apply(&self, buf: &mut ABuf, op: &Op) -> OpOut {
         let n = self.n;
         let r = guarded(|| match n {
@@ -713,6 +719,9 @@ impl Sut for PodSut {
     }
     fn skew(&self) -> usize {
         self.skew_of()
+    }
+    fn alt_skew(&self) -> usize {
+        if self.kind == 4 { 4 } else { 5 }
     }
     fn extra_initials(&self) -> Vec<Vec<u8>> {
         let mut v = vec![];
